@@ -192,12 +192,20 @@ channel_read_map(struct channel* self, struct channel_reader* reader)
     }
 
     if (!nbytes) {
-        // If nothing is available to read, we still need to advance this
-        // reader's position & cycle bookmarks to the beginning of the queue and
-        // the writer's cycle, respectively.
-        out = 0;
+        // Nothing is left in the previous lap. Advance this reader's position
+        // & cycle bookmarks to the beginning of the queue and the writer's
+        // cycle, respectively, and map what the writer has committed there so
+        // far: an empty region must mean there is nothing left to read.
         *pos = 0;
         *cycle = self->cycle;
+        out = self->data;
+        nbytes = self->head;
+        reader->pos = self->head;
+        reader->cycle = self->cycle;
+    }
+
+    if (!nbytes) {
+        out = 0;
     } else {
         reader->state = ChannelState_Mapped;
     }
